@@ -233,6 +233,7 @@ def attrSetRev (sch : Schema) (o : ObjId) (a : Attr) (x : ObjId) (st : St) : Res
     | some u =>
       if rd.isColl then reverseRemove (sch.rev a) [u] o st
       else if rd.required then .err .constraintError st                      -- Cannot unlink ... attribute is required
+      else if u = o ∧ sch.rev a = a then .ok st                              -- old_val is obj and reverse is attr (self link)
       else attrClearRev sch u (sch.rev a) st                                 -- reverse.__set__(old_val, None, undo_funcs)
   | _, _ => .err .noSuchAttr st
 
@@ -290,7 +291,9 @@ def delete (sch : Schema) : Nat → ObjId → St → Res
           | some x =>
             if !rd.isColl then
               if d.cascade then delete sch fuel x st
-              else if !rd.required then attrClearRev sch x (sch.rev a) st    -- reverse.__set__(val, None, undo_funcs)
+              else if !rd.required then                                      -- if val._vals_.get(reverse, obj) is obj:
+                if st.store.ref x (sch.rev a) = some o then attrClearRev sch x (sch.rev a) st   -- reverse.__set__(val, None, ..)
+                else .ok st
               else .err .constraintError st                                  -- Cannot delete: has associated
             else reverseRemove (sch.rev a) [x] o st
         | _, _ => .err .noSuchAttr st) attrs)
@@ -304,7 +307,8 @@ def updateReverse (sch : Schema) (fuel : Nat) (d rd : Side) (o : ObjId) (a : Att
     let r := match old with
       | none => Res.ok st
       | some u =>
-        if d.cascade then delete sch fuel u st                               -- old_val._delete_(undo_funcs)
+        if u = o ∧ sch.rev a = a then .ok st                                 -- old_val is obj and reverse is attr (self link)
+        else if d.cascade then delete sch fuel u st                          -- old_val._delete_(undo_funcs)
         else if rd.required then .err .constraintError st                    -- Cannot unlink ... attribute is required
         else attrClearRev sch u (sch.rev a) st                               -- reverse.__set__(old_val, None, undo_funcs)
     r.bind fun st => match v with
@@ -374,9 +378,15 @@ def lookupColl (vals : List (Attr × Val)) (a : Attr) : List ObjId :=
 /-- `Entity.__init__` (relationship part).  The validation loop comes first, as in the code. -/
 def create (sch : Schema) (fuel : Nat) (e : EntId) (vals : List (Attr × Val)) (st : St) : Res :=
   let attrs := sch.attrsOf e
-  if attrs.any (fun a => match sch.side a with
-      | some d => !d.isColl && d.required && (lookupRef vals a).isNone
-      | none => false) then .err .valueError st else
+  match attrs.findSome? (fun a => match sch.side a with           -- for attr in entity._attrs_: attr.validate(val)
+      | some d =>
+        if d.isColl then (if (lookupColl vals a).all (fun x => sch.target a == some (st.store.ent x)) then none else some Err.typeError)
+        else match lookupRef vals a with
+          | none => if d.required then some Err.valueError else none
+          | some x => if sch.target a == some (st.store.ent x) then none else some Err.typeError
+      | none => none) with
+  | some err => .err err st
+  | none =>
   let id := st.store.n
   let st := (st.setStore (st.store.alloc e)).log (.created id)
   iter (fun (a : Attr) (st : St) =>
@@ -419,6 +429,7 @@ def attrOk (sch : Schema) (s : Store) (o : ObjId) (a : Attr) (coll : Bool) : Opt
     | none => some .noSuchAttr
   else some .noSuchObject
 
+/-- structural check of constructor arguments (attribute of the entity, right kind, known ids); typing is checked by `create` in attribute order -/
 def valsOk (sch : Schema) (s : Store) (e : EntId) : List (Attr × Val) → Option Err
   | [] => none
   | (a, v) :: rest =>
@@ -428,8 +439,8 @@ def valsOk (sch : Schema) (s : Store) (e : EntId) : List (Attr × Val) → Optio
       if d.ent ≠ e then some .noSuchAttr else
       let r := match v with
         | .ref none => if d.isColl then some Err.noSuchAttr else none
-        | .ref (some x) => if d.isColl then some Err.noSuchAttr else valueOk sch s a x
-        | .coll l => if d.isColl then valuesOk sch s a l else some Err.noSuchAttr
+        | .ref (some x) => if d.isColl then some Err.noSuchAttr else (if x < s.n then none else some Err.noSuchObject)
+        | .coll l => if d.isColl then (if l.all (fun x => decide (x < s.n)) then none else some Err.noSuchObject) else some Err.noSuchAttr
       match r with
       | some e => some e
       | none => valsOk sch s e rest
